@@ -58,6 +58,7 @@ static int sl_source_step(void *data, int choice)
   if (choice < 0 || g_sl_src_pos >= g_sl_src_len) {
     const int rc = choice < 0 ? choice : -ENODATA;
     g_sl_src_err = rc;
+    ASSUME(g_sl_src_nneg < SIZE_MAX); /* fewer than 2^64 failures */
     g_sl_src_nneg++;
     return rc;
   }
@@ -96,6 +97,7 @@ static int sl_sink_fail(int rc)
       g_sl_snk_budget--;
   }
   g_sl_snk_err = rc;
+  ASSUME(g_sl_snk_nneg < SIZE_MAX); /* fewer than 2^64 failures */
   g_sl_snk_nneg++;
   return rc;
 }
